@@ -39,9 +39,11 @@ add('C01', 'model_checking',
     '(thorough: 4) layers x fault placements x options; the real runner is then '
     'driven over the TLC-exported graph family with random hooks, kinds, faults '
     'and options (in-process, resumed children, -j N) and every recorded trace '
-    'is validated by TLC against the same P-spec guards, clause by clause.',
-    TRUSTED, 'TLA+ spec + TLC model checking + TLC trace validation of real runs',
-    'DESIGN.md 5/C01')
+    'is validated by TLC against the same P-spec guards, clause by clause, and - for every run Runner.tla models - '
+    'against Runner.tla itself: the deterministic behaviour of the I-spec from the recorded world must produce exactly '
+    'the recorded events per process and the recorded summary / total lines (Trace_RunnerI; corrupted traces must be rejected).',
+    TRUSTED, 'TLA+ spec + TLC model checking + TLC trace validation of real runs against P-spec and I-spec',
+    'DESIGN.md 5/C01, 11.2')
 
 add('C05', 'model_checking',
     'TLC checks that Runner.tla (TestResult.startTest/stopTest hook loops over '
